@@ -442,6 +442,7 @@ package runtime
 //@   ensures m.hardLimits.Memory > 0 && memAmount > old(m.usedResources.Memory) ==> m.usedResources.Memory == 0
 //@   ensures m.hardLimits.Memory == 0 ==> m.usedResources.Memory == old(m.usedResources.Memory)
 //@   ensures m.usedResources.Memory <= old(m.usedResources.Memory)
+//@   ghost released += 1
 
 //@ func (*runtimeContextManager).Due
 //@   prop C07
